@@ -66,6 +66,7 @@ DocByName(d, name) ==
       [] name = "F12" -> Doc(d, {Vm("v1", "k1", "es19")}, {Ded("v1", "k2", "es19")}, {"v1"})                  \* dedicated authentication method (k2) sharing its id with a plain verification method (k1)
       [] name = "R1"  -> [Doc(d, {Vm("v1", "k1", "es19")}, {Ref("v1")}, {}) EXCEPT !.ex = "rich"]                    \* A1 plus controller, contexts, key agreement, services
       [] name = "E1"  -> Doc(d, {Vm("v1", "k1", "ed25")}, {Ref("v1")}, {})                                   \* Ed25519-typed method holding a secp256k1 key
+      [] name = "U1"  -> Doc(d, {Vm("v1", "k1", "x20")}, {Ref("v1")}, {})                                   \* a key type the module has no constant for (any non-empty type string is admitted statelessly)
       [] name = "N0"  -> Doc(d, {Vm("v1", "k1", "es19")}, {}, {})                                            \* no authentication at all (statelessly invalid)
       [] name = "EMP" -> EmptyDoc
 
@@ -127,6 +128,23 @@ DidLikely ==
                  ELSE {}
                : d \in Dids }
 
+\* simulation aid: update/deactivate messages for one DID whose proof would be VALID IF IT WERE CHECKED AGAINST ANOTHER registry entry -
+\* another stored DID's authentication key and method id, over that DID's or the target's sequence number.  The specification rejects all of
+\* them (the proof must come from the target's own stored document); code that looks the key up in the wrong entry (a controller, a
+\* case-folded twin, a cached document) accepts them.  Never drawn by uniform sampling.
+DidCross ==
+    IF ~ForeignVm \/ Kinds \cap {"did.Update", "did.Deactivate"} = {} THEN {}
+    ELSE UNION { UNION { LET c == Cell(didReg, d)
+                             ce == Cell(didReg, e) IN
+                         IF d = e \/ Status(c) # "active" \/ Status(ce) # "active" THEN {}
+                         ELSE UNION { {[type |-> "did.Update", did |-> d, doc |-> dc, vm |-> a.n, vmDid |-> ce.doc.id,
+                                        proof |-> [key |-> k, data |-> dc, seq |-> sq], from |-> Relayer] :
+                                            a \in ce.doc.auth, k \in AuthKeysOf(ce.doc), sq \in {c.seq, ce.seq}} : dc \in DocsOf(d) }
+                              \cup {[type |-> "did.Deactivate", did |-> d, vm |-> a.n, vmDid |-> ce.doc.id,
+                                     proof |-> [key |-> k, data |-> DeactDoc(d), seq |-> sq], from |-> Relayer] :
+                                            a \in ce.doc.auth, k \in AuthKeysOf(ce.doc), sq \in {c.seq, ce.seq}}
+                       : e \in Dids } : d \in Dids }
+
 PnMsgs ==
     (IF "pnft.CreateDenom" \in Kinds THEN
         {[type |-> "pnft.CreateDenom", id |-> i, actor |-> a, name |-> n, symbol |-> "S", desc |-> "", uri |-> "", hash |-> "", data |-> ""] :
@@ -164,7 +182,9 @@ AuthzMsgs ==
 
 Msgs == AolMsgs \cup DidMsgs \cup PnMsgs \cup BankMsgs \cup AuthzMsgs
 
-Pool(n) == IF SimSample = 0 \/ Cardinality(Msgs) <= n THEN Msgs ELSE RandomSubset(n, Msgs) \cup RandomSubset(IF Cardinality(DidLikely) < 6 THEN Cardinality(DidLikely) ELSE 6, DidLikely)
+Pool(n) == IF SimSample = 0 \/ Cardinality(Msgs) <= n THEN Msgs
+           ELSE RandomSubset(n, Msgs) \cup RandomSubset(IF Cardinality(DidLikely) < 6 THEN Cardinality(DidLikely) ELSE 6, DidLikely)
+                \cup RandomSubset(IF Cardinality(DidCross) < 2 THEN Cardinality(DidCross) ELSE 2, DidCross)
 
 MsgSeqs == {<<m>> : m \in Pool(SimSample)}
            \cup (IF MaxTxLen >= 2 THEN {<<m1, m2>> : m1 \in Pool(SimSample \div 3 + 1), m2 \in Pool(SimSample \div 3 + 1)} ELSE {})
@@ -184,7 +204,8 @@ Txs == UNION { UNION { {[msgs |-> ms, signers |-> sg, fee |-> f, exec |-> ex] : 
 
 MCDeliver(tx) ==
     /\ ndel < MaxDeliver
-    /\ (FailKeep = 1 \/ Outcome(tx).result = "ok" \/ RandomElement(1..FailKeep) = 1)
+    /\ (FailKeep = 1 \/ Outcome(tx).result = "ok" \/ RandomElement(1..FailKeep) = 1
+           \/ (SimSample > 0 /\ Len(tx.msgs) = 1 /\ tx.msgs[1] \in DidCross /\ RandomElement(1..2) = 1))
     /\ Deliver(tx) /\ ndel' = ndel + 1 /\ HistNext /\ path' = Append(path, act')
 MCEndBlock == height < MaxHeight /\ (BlockKeep = 1 \/ RandomElement(1..BlockKeep) = 1) /\ EndBlock /\ UNCHANGED ndel /\ HistNext /\ path' = Append(path, act')
 MCBegin(m) == "BeginBlock" \in NextKinds /\ BeginBlock(m) /\ UNCHANGED ndel /\ HistNext /\ path' = Append(path, act')
@@ -232,6 +253,7 @@ I_C01 == C01_Dense /\ C01_Acked(SpecView)
 I_C04 == C04_View(SpecView)
 I_C05 == C05_View(SpecView)
 I_C07 == C07_Inv /\ C07_Ended
+I_Genesis == GenExportValid /\ GenRoundTrip     \* Genesis.tla: on every reachable state the export validates and import(export) is the identity
 I_C11 == C11_Inv /\ C11_View(SpecView)
 I_C12 == C12_Inv /\ C12_View(SpecView)
 I_C13 == C13_Inv /\ C13_View(SpecView)
